@@ -75,7 +75,20 @@ def write_json(path, obj):
     os.replace(tmp, path)
 
 
-def run(cmd, cwd=None, timeout=None, env=None, tee=None):
+def _mem_cap(gb):
+    """preexec hook: cap the address space of the command and its children (a solver that hits the cap
+    reports out-of-memory, which the engines classify as undecided, instead of the kernel killing
+    unrelated processes)."""
+    if not gb:
+        return None
+    def _set():
+        import resource
+        lim = int(gb * (1 << 30))
+        resource.setrlimit(resource.RLIMIT_AS, (lim, lim))
+    return _set
+
+
+def run(cmd, cwd=None, timeout=None, env=None, tee=None, mem_gb=None):
     """Run a command, return (rc, combined output, wall seconds). rc = -9 on timeout.
     With `tee`, the combined output is also streamed to that file while the command runs."""
     t0 = time.time()
@@ -90,7 +103,7 @@ def run(cmd, cwd=None, timeout=None, env=None, tee=None):
     os.makedirs(os.path.dirname(tee), exist_ok=True)
     with open(tee, "wb") as f:
         p = subprocess.Popen(cmd, cwd=cwd, env=env or env_offline(), stdout=f, stderr=subprocess.STDOUT,
-                             start_new_session=True)
+                             start_new_session=True, preexec_fn=_mem_cap(mem_gb))
         try:
             rc = p.wait(timeout=timeout)
         except subprocess.TimeoutExpired:
